@@ -30,18 +30,16 @@ Eval vm_compute in (lock_violations table).
 
 
 def translate(tier):
-    ok, side, cout, dout, notes = G.translate("C32", "lockgraph", "LockGraph", "LockCheck", CHECK, DIAG)
+    ok, side, cout, dout, notes = G.translate("C32", "lockgraph", "LockGraph", "LockCheck", CHECK, DIAG,
+                                               ["Conc/Locks.vo", "Conc/LocksProofs.vo", "Base/Val.vo"])
     if side is None:
         return False, notes
     cls, fns, sites = side["classes"], side["fns"], side["sites"]
     unsupported = [n for n in side["notes"] if "UNSUPPORTED" in n]
     dynamic = [n for n in side["notes"] if "DYNAMIC" in n]
     blocking = [n for n in side["notes"] if "BLOCKING" in n]
-    notes.append("LockGraph: %d functions analysed, %d sites, %d lock classes: %s" % (
-        side["functions_analysed"], len(sites), len(cls), ", ".join(cls)))
-    nested = sorted({"%s -> %s" % (h.rsplit("/", 1)[0], s.get("class") or s.get("callee"))
-                     for s in sites for h in s["held"]})
-    notes.append("sites with a lock held (%d): %s" % (len(nested), "; ".join(nested)[:3000]))
+    if unsupported:
+        notes.append("constructs the translator cannot describe (the table may not cover them): " + " | ".join(unsupported)[:1200])
     if ok:
         notes.append("kernel: lock_discipline_ok LockGraph.table = true (vm_compute); "
                      "C32_holds_for_this_tree closed under the global context")
@@ -58,14 +56,16 @@ def translate(tier):
                              % (fn, cb, ca, ", ".join(sorted(set(where))[:6])))
         if not viol:
             notes.append("check file did not compile: " + cout[-1200:])
-    if unsupported:
-        ok = False
-        notes.append("constructs the translator cannot describe (the table may not cover them): " + " | ".join(unsupported)[:2000])
+    notes.append("LockGraph: %d functions analysed, %d sites, %d lock classes: %s" % (
+        side["functions_analysed"], len(sites), len(cls), ", ".join(cls)))
+    nested = sorted({"%s -> %s" % (h.rsplit("/", 1)[0], s.get("class") or s.get("callee"))
+                     for s in sites for h in s["held"]})
+    notes.append("sites with a lock held (%d): %s" % (len(nested), "; ".join(nested)[:3000]))
     notes.append("calls under a lock whose callee is only known by interface / function type (%d): %s"
                  % (len(dynamic), " | ".join(d.split(": ", 2)[-1][:160] for d in dynamic)[:3000]))
     if blocking:
         notes.append("blocking operations under a lock, outside the model (%d): %s" % (len(blocking), " | ".join(blocking)[:1500]))
-    return ok, notes
+    return ok and not unsupported, notes
 
 
 PROP = dict(
